@@ -100,19 +100,12 @@ func c03StampReachesPublished(p *Prog, r *Report, rule string) {
 	}
 	info := fi.Pkg.TypesInfo
 	cons := kUpdateTx + "#stamp-reaches-published-versions"
-	// the slice ranged by the publication loop
-	var pubSlice types.Object
-	for _, rs := range rangeLoops(fi.Decl.Body) {
-		ast.Inspect(rs.Body, func(x ast.Node) bool {
-			if c, ok := x.(*ast.CallExpr); ok && p.callIs(fi.Pkg, c, kStoreToTx) {
-				pubSlice = objOf(info, rs.X)
-			}
-			return true
-		})
-	}
+	// the slice ranged by the publication loop, as a storage path in UpdateTx's terms; the loop may sit in a
+	// helper spliced into the graph (its parameter is then bound to UpdateTx's slice)
+	outer := p.FlatInlExcept(fi, kStoreToTx)
+	pubSlice := publishedSlicePath(p, fi, outer)
 	var cb *FuncInfo
 	var lit ast.Node
-	outer := p.FlatInl(fi)
 	for _, n := range outer.Nodes {
 		if n.Ast == nil {
 			continue
@@ -124,16 +117,18 @@ func c03StampReachesPublished(p *Prog, r *Report, rule string) {
 			}
 		}
 	}
-	if pubSlice == nil || cb == nil {
+	if pubSlice == "" || cb == nil {
 		r.Undecided(rule, cons, p.pos(fi.Decl), "publication loop or commit callback not found")
 		return
 	}
 	cf := p.FlatInl(cb)
+	cf.Outer = outer
 	good, found := true, false
 	detail := ""
-	// the root variable of an expression, followed through the parameter bindings of inlined helpers and through
+	// the storage an expression names, followed through the parameter bindings of inlined helpers and through
 	// the captured variables of the callback
-	rootOf := func(e ast.Expr) types.Object { return outer.CanonObj(cf.CanonRoot(e)) }
+	rootOf := func(e ast.Expr) string { return cf.CanonPath(e) }
+	_ = info
 	for _, gn := range cf.Nodes {
 		if gn.Ast == nil {
 			continue
@@ -1444,27 +1439,35 @@ func c14FreshLists(p *Prog, r *Report, rule string) {
 		info := fi.Pkg.TypesInfo
 		f := p.FlatInl(fi)
 		// result variables of slice type: named results and variables returned
-		lists := map[types.Object]bool{}
+		// (a list is named by its storage path: a variable, or a slice field of a local state struct)
+		lists := map[string]string{}
 		res := fi.Sig().Results()
 		for i := 0; i < res.Len(); i++ {
 			if _, ok := res.At(i).Type().Underlying().(*types.Slice); ok && res.At(i).Name() != "" {
-				lists[res.At(i)] = true
+				lists[objID(res.At(i))] = res.At(i).Name()
 			}
 		}
 		for _, id := range f.ReturnNodes() {
 			if rs := f.returnStmt(id); rs != nil {
 				for _, e := range rs.Results {
-					if o := objOf(info, e); o != nil {
-						if _, ok := o.Type().Underlying().(*types.Slice); ok {
-							lists[o] = true
+					if tv, ok := info.Types[e]; ok {
+						if _, isSlice := tv.Type.Underlying().(*types.Slice); isSlice {
+							if lp := f.rawPath(e); lp != "" {
+								lists[lp] = types.ExprString(e)
+							}
 						}
 					}
 				}
 			}
 		}
-		for o := range lists {
+		var lkeys []string
+		for lp := range lists {
+			lkeys = append(lkeys, lp)
+		}
+		sort.Strings(lkeys)
+		for _, lp := range lkeys {
 			n++
-			cons := fmt.Sprintf("%s#list %s is owned by the caller", k, o.Name())
+			cons := fmt.Sprintf("%s#list %s is owned by the caller", k, lists[lp])
 			bad := ""
 			for _, gn := range f.Nodes {
 				as, ok := gn.Ast.(*ast.AssignStmt)
@@ -1473,7 +1476,7 @@ func c14FreshLists(p *Prog, r *Report, rule string) {
 				}
 				for i, l := range as.Lhs {
 					// list = <expr>
-					if objOf(info, l) == o {
+					if f.rawPath(l) == lp {
 						rhs := ast.Unparen(as.Rhs[i])
 						okRhs := false
 						switch x := rhs.(type) {
@@ -1488,7 +1491,7 @@ func c14FreshLists(p *Prog, r *Report, rule string) {
 									case "make":
 										okRhs = true
 									case "append":
-										okRhs = len(x.Args) > 0 && objOf(info, x.Args[0]) == o
+										okRhs = len(x.Args) > 0 && f.rawPath(x.Args[0]) == lp
 									}
 								}
 							}
@@ -1499,7 +1502,7 @@ func c14FreshLists(p *Prog, r *Report, rule string) {
 					}
 					// field = list
 					if sel, isSel := ast.Unparen(l).(*ast.SelectorExpr); isSel {
-						if fv, ok := info.Uses[sel.Sel].(*types.Var); ok && fv.IsField() && rootIdentObj(info, as.Rhs[i]) == o {
+						if fv, ok := info.Uses[sel.Sel].(*types.Var); ok && fv.IsField() && f.rawPath(as.Rhs[i]) == lp && f.rawPath(l) != lp && !localRoot(f, fi, sel.X) {
 							bad = p.pos(as) + ": the list is kept in the field " + fv.Name()
 						}
 					}
@@ -1509,7 +1512,7 @@ func c14FreshLists(p *Prog, r *Report, rule string) {
 				"the delete list shares its backing array with storage that outlives the call ("+bad+"): the next call overwrites the list while a pool worker is still walking it - the contents of the first transaction are never deleted")
 		}
 	}
-	r.Floor(rule, "core-delete-lists", n, 4)
+	r.Floor(rule, "core-delete-lists", n, 3)
 }
 
 // c14VisitsEveryFile (seeded C14-D): cleaner.DeleteFiles attempts every file of its list: inside the loop over
@@ -2657,4 +2660,36 @@ func c14CollectorVisitsEveryKey(p *Prog, r *Report, rule string) {
 	}
 	r.Check(bad == "", rule, cons, p.pos(fi.Decl), "every key is examined in every pass",
 		bad+": a key can be skipped by a collector pass; versions that an earlier pass had to keep (an open transaction pinned them) are never looked at again once that transaction has ended, and their contents stay on disk until the key is written again")
+}
+
+// localRoot: is the root of the selector chain a variable declared inside the function body (a local state
+// struct), as opposed to the receiver, a parameter or a package variable?
+func localRoot(f *Flat, fi *FuncInfo, e ast.Expr) bool {
+	root := f.CanonRoot(e)
+	return root != nil && fi.body() != nil && root.Pos() >= fi.body().Pos() && root.Pos() < fi.body().End()
+}
+
+// publishedSlicePath: the slice ranged by the publication loop of UpdateTx (the loop calling storeToTx), as a
+// storage path in UpdateTx's terms; the loop may sit in a helper spliced into the graph.
+func publishedSlicePath(p *Prog, fi *FuncInfo, outer *Flat) string {
+	bodies := []*ast.BlockStmt{fi.Decl.Body}
+	seenBody := map[string]bool{}
+	for _, ii := range outer.Inl {
+		if h := p.Func(ii.Callee); h != nil && h.Decl != nil && h.Decl.Body != nil && !seenBody[ii.Callee] {
+			seenBody[ii.Callee] = true
+			bodies = append(bodies, h.Decl.Body)
+		}
+	}
+	pubSlice := ""
+	for _, body := range bodies {
+		for _, rs := range rangeLoops(body) {
+			ast.Inspect(rs.Body, func(x ast.Node) bool {
+				if c, ok := x.(*ast.CallExpr); ok && p.callIs(fi.Pkg, c, kStoreToTx) {
+					pubSlice = outer.CanonPath(rs.X)
+				}
+				return true
+			})
+		}
+	}
+	return pubSlice
 }
